@@ -527,7 +527,12 @@ func (i *interpreter) concAllocSize(s sym, what string) int64 {
 		small = tc.And(small, tc.bvcmp(OBvSle, tc.BV(w, 0), s.t))
 	}
 	if i.px.branch(small) {
-		return i.concInt(s, what)
+		// 0..AllocEnumerate inclusive: its own limit, independent of the general concretize limit
+		u := i.px.concretize(s.t, i.px.eng.cfg.AllocEnumerate+1, what)
+		if kindSigned(s.k) {
+			return signExt(u, kindWidth(s.k))
+		}
+		return int64(u)
 	}
 	i.px.res.Reached["engine:representative-allocation-size"] = true
 	var v uint64
